@@ -56,6 +56,14 @@ RULE = ("(1) labels->modes: generated label vectors (n<=14, K_fit<=6; full cover
         "inside the bounding box of the particles carrying the label, scale symmetric with no eigenvalue below -1e-9 relative, dof positive "
         "finite); an exception other than LinAlgError is a disagreement; the constructor's verdict vs `c14g.gate` (Model.ModeGate.pdGate at "
         "Float) on every fitted scale matrix that is clearly positive definite (relative 1e-10) or has an exactly zero diagonal entry. "
+        "(9) predict-batch-independence (seeded change C14f): generated pools of 2-3 neighbouring clusters of different width, all narrow in "
+        "unit-cube coordinates (sigma 6e-4..1.1e-2), plus 3-13 far low-weight stragglers (>= 40 sigma from every cluster, where the "
+        "densities underflow), d=1..3, through ONE real iteration (real Trainer.run with the real HierarchicalGaussianMixture wired as in "
+        "core.py and the real fit_mvstud / trim_weights, real Resampler.run syst|mult, real Mutator.run, parallel_mcmc intercepted): model-free "
+        "oracles -- every active particle that is also a training particle is sent to the mode fitted from the cluster the Trainer put THAT "
+        "particle in; predict(batch)[i] == predict(batch[i:i+1])[0] on the active set, on training points + stragglers, on training points + "
+        "points at +-1e3, on training points alone; a difference counts as a near_tie only if the point's two largest responsibilities differ "
+        "by < 1e-9. The particle-wise oracle also runs at every mutation of suite 4. "
         "Non-trivial = (1,2) >=2 distinct labels and (a gap or unsorted order); (3) an annealing iteration with cluster_every>1 or a resume; "
         "(4) every run; (5) any batch that is not all plain SPD; (6) every script; (7) every annealing iteration; (8) a case with a "
         "non-generic cluster.")
@@ -553,7 +561,8 @@ def real_run(cfg):
     def fp_spy(cls, u, weights, labels, *a, **k):
         cl = holder["s"]._core.trainer.clusterer
         last.update(made_by="from_particles", labels=sorted(set(int(l) for l in np.asarray(labels).tolist())),
-                    kfit=int(cl.n_clusters_))
+                    kfit=int(cl.n_clusters_),
+                    train={tuple(float(v) for v in row): int(lab) for row, lab in zip(np.asarray(u), np.asarray(labels))})
         return real_fp(cls, u, weights, labels, *a, **k)
 
     def fg_spy(cls, *a, **k):
@@ -596,6 +605,17 @@ def real_run(cfg):
                         if dist[int(idx[j])] > dist.min() * (1 + 1e-12) + 1e-300:
                             problems.append(f"{where}: particle {j} with label {r_} (no mode) not sent to the nearest mean {ctx}")
                             break
+        # particle by particle: an active particle that is also a training particle was labelled twice by the SAME fit (Trainer.run,
+        # Resampler.run); predict is a function of the point, so the two labels agree (unless the point sits on a decision boundary)
+        if last["made_by"] == "from_particles" and last.get("train") and last["mi"] is not None and last["mi"][0] is ms:
+            from . import c14b
+            _, raw, uu, _, _ = last["mi"]
+            for j in range(len(raw)):
+                lt = last["train"].get(tuple(float(v) for v in uu[j]))
+                if lt is not None and lt != int(raw[j]) and c14b._proba_gap(cl, np.asarray(uu[j])) >= 1e-9:
+                    problems.append(f"{where}: active particle {j} is a training particle the Trainer labelled {lt} (mode {lt} was fitted from "
+                                    f"it) but the Resampler labelled it {int(raw[j])}: its mode was not fitted from its own cluster {ctx}")
+                    break
         if not np.all(np.isfinite(ms.means)):
             problems.append(f"{where}: non-finite mode mean")
         for j in range(ms.K):
@@ -857,6 +877,7 @@ def correspond(tier):
     out.append(c14b.correspond_cadence_x(tier, drv))
     out.append(c14b.correspond_dataflow(tier, drv))
     out.append(c14b.correspond_modes_real(tier, drv))
+    out.append(c14b.correspond_stragglers(tier))
     return out
 
 
@@ -958,6 +979,11 @@ def search(tier, hints):
                 msg = c14b.oracle_dataflow(h["cfg"])
                 if msg:
                     found.append({"what": msg, "kind": "dataflow", "cfg": h["cfg"]})
+            elif h.get("kind") == "straggler" and h.get("seed") is not None:
+                from . import c14b
+                msg = c14b.straggler_iteration(h["seed"])
+                if msg:
+                    found.append({"what": msg, "kind": "straggler", "seed": h["seed"]})
             elif h.get("kind") == "modesreal" and h.get("index") is not None:
                 from . import c14b
                 msg = c14b.oracle_modes_real(h["index"])
@@ -1017,6 +1043,17 @@ def search(tier, hints):
             msg = f"execute_iteration raised {type(e).__name__}: {e}"
         if msg:
             found.append({"what": msg, "kind": "dataflow", "cfg": key})
+    # pools with far low-weight stragglers (densities underflow there): particle-wise coherence and batch independence of predict
+    for i in range(40 if quick else 400):
+        if len(found) >= 3:
+            break
+        sd = rng.randrange(2 ** 31)
+        try:
+            msg = c14b.straggler_iteration(sd)
+        except Exception as e:  # noqa
+            msg = f"iteration on the generated pool (seed {sd}) raised {type(e).__name__}: {e}"
+        if msg:
+            found.append({"what": msg, "kind": "straggler", "seed": sd})
     if len(found) < 3:
         i, msg = c14b.oracle_modes_real_first(80 if quick else 1500)
         if msg:
@@ -1056,6 +1093,9 @@ def replay(obj):
     elif kind == "modesreal":
         from . import c14b
         msg = c14b.oracle_modes_real(f["index"])
+    elif kind == "straggler":
+        from . import c14b
+        msg = c14b.straggler_iteration(f["seed"])
     else:
         found = search("quick", [])
         msg = found[0]["what"] if found else None
